@@ -6,13 +6,6 @@ From Sge Require Import Lib.Dec Model.Types Model.Orderbook Model.Chain Gen.kern
 Import ListNotations.
 Open Scope Z_scope.
 
-Lemma find_gp i (ps : list part) :
-  find (fun g => G_OrderBookParticipation_Index g =? i) (map gp_of ps) = option_map gp_of (findb (part_is i) ps).
-Proof.
-  unfold findb. induction ps as [|a r IH]; cbn [map find option_map]; [reflexivity|].
-  unfold part_is at 1. cbn [gp_of G_OrderBookParticipation_Index]. destruct (p_idx a =? i); [reflexivity|exact IH].
-Qed.
-
 (* a refunded bet: the stake out of the liquidity pool, then the fee out of the bet fee collector, both to the bettor *)
 Lemma gen_RefundBettor effs0 parts bettor amount fee x :
   K_settle_RefundBettor (settle_state effs0 parts) bettor amount fee x =
